@@ -11,7 +11,7 @@ A_STORE = [
 ]
 A_BANK = [
     "A-BANK: x/bank behaves as zzverif.Bank (all-or-nothing sends; insufficient funds, invalid coins and blocked recipients are the only failures; supply changes only by mint/burn); initial balances in [0, 2^128)",
-    "A-B32: bech32 decode(encode(b)) = b; valid account strings are 42 characters with prefix jkl1 and decode to 20 bytes (A-B32-LEN); encode(decode(s)) = s is NOT assumed",
+    "A-B32: bech32 decode(encode(b)) = b; valid account strings have prefix jkl1 and are 42 (20-byte address) or 62 (32-byte address) characters long (A-B32-LEN); encode(decode(s)) = s is NOT assumed",
     "A-ATOMIC: a message that returns an error or panics leaves no state change (zzverif.Deliver)",
 ]
 
@@ -42,9 +42,11 @@ CHECKS = {
         "assumptions": A_COMMON + A_STORE + A_BANK,
     },
     "C13": {
-        "groups": [{"pkgs": "./x/jklmint/utils", "fns": ["VH_C13_*"]}],
-        "covers": ["C13/kernel-reached", "C13/owed-reached"],
-        "assumptions": A_COMMON,
+        "groups": [{"pkgs": "./x/jklmint/utils", "fns": ["VH_C13_*"]}, {"pkgs": "./x/jklmint/keeper", "fns": ["VH_C13_*"]}],
+        "covers": ["C13/kernel-reached", "C13/owed-reached", "C13/blockmint-done"],
+        "assumptions": A_COMMON + A_STORE + A_BANK + ["A-RECIP: the stipend and dev-grant recipients are valid, ordinary, non-blocked accounts",
+                                                      "params satisfy the module's own validators (executed) and the three ratios sum to at most 100",
+                                                      "induction over blocks: the previous block's recorded emission is non-negative"],
     },
 }
 
